@@ -57,6 +57,11 @@ C15Cancel(pr, e, c) ==
     [id |-> "C15/cancel/" \o pr[1] \o pr[2] \o (IF pr[3] THEN "6" ELSE "4") \o "/e" \o ToString(e) \o "/" \o ToString(c), label |-> pr[1] \o pr[2] \o "/cancel_during_e2e_pacing",
      kind |-> "run", per_flow |-> TRUE, sack_perm |-> TRUE, isn32 |-> <<4660, 1>>, cancel_us |-> c,
      run |-> Run(pr[1], pr[2], pr[3], 1, 4, 1, e), path |-> PathFor(pr[1], pr[3], 1, 4, 3, 0)]
+\* the caller's context has a DEADLINE that passes while an end-to-end probe of an ICMP request is on its way (the ICMP entry point
+\* takes the caller's context): that probe failed, so the request fails - a timeout-typed failure is a failure like any other
+C15Deadline(pr, e, c) ==
+    [C15Cancel(pr, e, c) EXCEPT !.id = "C15/deadline/" \o pr[1] \o (IF pr[3] THEN "6" ELSE "4") \o "/e" \o ToString(e) \o "/" \o ToString(c),
+                                !.label = pr[1] \o "/caller_deadline_during_e2e_pacing"] @@ [extra |-> [deadline |-> TRUE]]
 \* more failures than a log line is long: every single one is still exposed
 C15Many(pr) ==
     [C15Scen(pr, 4, 8, <<>>, Orders1, "none") EXCEPT !.id = "C15/many/" \o pr[1] \o pr[2], !.label = pr[1] \o "/" \o pr[2] \o "/twelve_failures",
@@ -78,7 +83,7 @@ C14Long(pr, mx) ==
         !.label = "request/" \o pr[1] \o (IF pr[3] THEN "6" ELSE "4") \o "/ttl_range_beyond_default/silent_target",
         !.run.max_ttl = mx, !.path = PathOf([t \in {1} |-> <<>>])]
 C14LongAll == { C14Long(pr, mx) : pr \in Protos, mx \in {40, 64} }
-C15All(u) == C14LongAll \cup { C15Http(pr, qe[1], qe[2]) : pr \in {<<"udp", "", FALSE>>, <<"tcp", "syn", FALSE>>}, qe \in {<<1, 0>>, <<0, 1>>, <<0, 2>>, <<2, 1>>} }
+C15All(u) == C14LongAll \cup { C15Deadline(pr, 3, c) : pr \in {<<"icmp", "", FALSE>>, <<"icmp", "", TRUE>>}, c \in {537, 900037} } \cup { C15Http(pr, qe[1], qe[2]) : pr \in {<<"udp", "", FALSE>>, <<"tcp", "syn", FALSE>>}, qe \in {<<1, 0>>, <<0, 1>>, <<0, 2>>, <<2, 1>>} }
              \* counts beyond one byte
              \cup { C15Http(<<"udp", "", FALSE>>, 0, 260) } \cup { C15Many(pr) : pr \in {<<"udp", "", FALSE>>, <<"icmp", "", FALSE>>} } \cup { C15ManyHttp(pr) : pr \in {<<"udp", "", FALSE>>, <<"icmp", "", FALSE>>} } \cup { C15Cancel(pr, e, c) : pr \in {<<"udp", "", FALSE>>, <<"tcp", "syn", FALSE>>, <<"udp", "", TRUE>>}, e \in {2, 4}, c \in {100000, 450000} } \cup { C15Scen(pr, qe[1], qe[2], fs, ord, pub) :
                  pr \in Protos, qe \in {<<1, 0>>, <<3, 0>>, <<0, 2>>, <<2, 3>>, <<3, 1>>}, fs \in FaultSets(4), ord \in Orders, pub \in {"none", "ok", "fail"} }
